@@ -63,9 +63,27 @@ def seeded_block():
     return "\n".join(head + rows)
 
 
+def benign_block():
+    rows = []
+    for f in sorted(glob.glob("/verif/benign/*/meta.json")):
+        m = json.load(open(f))
+        name = f.split("/")[-2]
+        ch = m.get("checks", {})
+        alarms = [c for c, v in ch.items() if v["exit"] != 0]
+        what = (m.get("what") or "").replace("|", "/").replace("\n", " ")
+        rows.append(f"| {name} | {m.get('kind') or ''} | {what[:260]} | {', '.join(sorted(ch))} | {'silent' if not alarms else '**ALARM** ' + ', '.join(alarms)} |")
+    n = len(rows)
+    bad = sum(1 for r in rows if "**ALARM**" in r)
+    head = [f"{n} confirmed property-preserving changes (each: applies on a clean worktree, repository tests still `37 passed`, an independent "
+            f"demonstration of the property passes with and without the change); the quick tier of the named check(s) stays silent on {n - bad} of them"
+            + ("." if not bad else f", raises an alarm on {bad}."), "",
+            "| id | kind | change | checks run | result |", "|---|---|---|---|---|"]
+    return "\n".join(head + rows)
+
+
 def main():
     s = open(D).read()
-    for name, fn in (("findings", findings_block), ("seeded", seeded_block)):
+    for name, fn in (("findings", findings_block), ("seeded", seeded_block), ("benign", benign_block)):
         b, e = f"<!-- BEGIN GENERATED: {name} -->", f"<!-- END GENERATED: {name} -->"
         if b in s:
             s = re.sub(re.escape(b) + ".*?" + re.escape(e), lambda m: b + "\n" + fn() + "\n" + e, s, flags=re.S)
